@@ -9,6 +9,7 @@ import Mathlib.Tactic.Ring
 import Mathlib.Tactic.FieldSimp
 import Mathlib.Tactic.SplitIfs
 import Mathlib.Tactic.Positivity
+import RQ.Lemmas.WorldC
 
 namespace RQ.Props.C09
 open RQ.Q
@@ -438,5 +439,36 @@ example : let s0 : St := ⟨⟨100000, 0, 0, [], 0, 0, 0, []⟩, []⟩
     let s := ([Op.submit 1 1000 10508, .submit 2 500 5254, .fill 1 7 ⟨false, 1, 0, 1, true, 100⟩ 10 true ⟨10.5, 400, .open_, 5⟩, .release 2] : List Op).foldl stepB s0
     s.acct.frozen = 10508 * 600 / 1000 ∧ s.book.length = 1 := by
   decide +kernel
+
+
+/-! ### whole runs of the composed world (`RQ/Model/World.lean`) -/
+
+/-- **reserved cash is conserved, for whole runs of the whole system**: start from any portfolio without resting orders and without
+reserved cash; let the strategy do anything (orders of positive quantity with the pairwise different ids the order-id counter hands out,
+cancels, deposits, financing) on any market, over any number of days, with any configuration.  In EVERY state the run reaches, the cash
+every account holds in reserve is exactly what its orders still resting in the broker's two books have not yet used or given back —
+broker, matcher, cost decider, validators and accounts composed, not an abstract book. -/
+theorem world_reserved_cash_is_resting_orders (w : World) (ins : List WIn) (ho : w.openOrders = []) (ha : w.auctionOrders = [])
+    (hf : ∀ (k : Nat) (a : Acct), w.pf.accounts[k]? = some a → a.frozen = 0)
+    (hi : ∀ i ∈ ins, RQ.Lemmas.WorldC.InputOk i) (hids : (RQ.Lemmas.WorldC.submittedIds ins).Nodup) :
+    ∀ (k : Nat) (a : Acct), (w.run ins).1.pf.accounts[k]? = some a → a.frozen = RQ.Lemmas.WorldC.bookReserve (w.run ins).1 k :=
+  (RQ.Lemmas.WorldC.run_from_start w ins ho ha hf hi hids).1
+
+/-- … in particular whenever no order rests (after every close), nothing is reserved -/
+theorem world_nothing_reserved_without_orders (w : World) (ins : List WIn) (ho : w.openOrders = []) (ha : w.auctionOrders = [])
+    (hf : ∀ (k : Nat) (a : Acct), w.pf.accounts[k]? = some a → a.frozen = 0)
+    (hi : ∀ i ∈ ins, RQ.Lemmas.WorldC.InputOk i) (hids : (RQ.Lemmas.WorldC.submittedIds ins).Nodup)
+    (ho' : (w.run ins).1.openOrders = []) (ha' : (w.run ins).1.auctionOrders = []) :
+    ∀ (k : Nat) (a : Acct), (w.run ins).1.pf.accounts[k]? = some a → a.frozen = 0 := by
+  obtain ⟨h1, h2⟩ := RQ.Lemmas.WorldC.start_ok w ho ha hf
+  have hb : RQ.Lemmas.WorldC.bookIds w = [] := by unfold RQ.Lemmas.WorldC.bookIds; rw [ho, ha]; rfl
+  exact RQ.Lemmas.WorldC.no_orders_no_reserve_uniqueIds w ins h2 h1 hi (by rw [hb]; simpa using hids) ho' ha'
+
+/-- the hypothesis on the ids is needed: with two resting orders under ONE id a cancellation releases one reserve and removes both orders
+(kernel-checked counterexample; the real system's order ids come from a counter) -/
+theorem world_reserve_needs_distinct_ids :
+    ¬ ∀ (w : World) (i : WIn), RQ.Lemmas.WorldC.BooksWF w → RQ.Lemmas.WorldC.ReserveInv w → RQ.Lemmas.WorldC.InputOk i →
+        RQ.Lemmas.WorldC.ReserveInv (w.step i).1 ∧ RQ.Lemmas.WorldC.BooksWF (w.step i).1 :=
+  RQ.Lemmas.WorldC.Counterexample.step_reserveInv_false
 
 end RQ.Props.C09
